@@ -40,12 +40,7 @@
 //!     }
 //! }
 //! ```
-use std::{
-    collections::BTreeMap,
-    future::Future,
-    pin::Pin,
-    sync::{Arc, Mutex},
-};
+use std::{collections::BTreeMap, future::Future, pin::Pin, sync::Arc};
 
 use n0_error::{AnyError, e, stack_error};
 use n0_future::{
@@ -97,7 +92,7 @@ use crate::{
 pub struct Router {
     endpoint: Endpoint,
     // `Router` needs to be `Clone + Send`, and we need to `task.await` in its `shutdown()` impl.
-    task: Arc<Mutex<Option<AbortOnDropHandle<()>>>>,
+    task: Arc<tokio::sync::Mutex<Option<AbortOnDropHandle<()>>>>,
     cancel_token: CancellationToken,
 }
 
@@ -427,19 +422,16 @@ impl Router {
     /// If some [`ProtocolHandler`] panicked in the accept loop, this will propagate
     /// that panic into the result here.
     pub async fn shutdown(&self) -> Result<(), n0_future::task::JoinError> {
-        if self.is_shutdown() {
-            return Ok(());
-        }
-
         // Trigger shutdown of the main run task by activating the cancel token.
         self.cancel_token.cancel();
 
-        // Wait for the main task to terminate.
-
-        // MutexGuard is not held across await point
-        let task = self.task.lock().expect("poisoned").take();
-        if let Some(task) = task {
-            task.await?;
+        // Wait for the main task to terminate. Concurrent callers queue up on the async
+        // lock, so none of them returns before the run task has finished.
+        let mut task = self.task.lock().await;
+        if let Some(handle) = task.as_mut() {
+            let res = handle.await;
+            *task = None;
+            res?;
         }
 
         Ok(())
@@ -616,7 +608,7 @@ impl RouterBuilder {
 
         Router {
             endpoint: self.endpoint,
-            task: Arc::new(Mutex::new(Some(task))),
+            task: Arc::new(tokio::sync::Mutex::new(Some(task))),
             cancel_token: cancel,
         }
     }
